@@ -45,6 +45,52 @@ type hW struct {
 	lastPan bool
 	lastMsg string
 	rec     *hRec // recording listener, if installed (C11)
+
+	// model of the handle sequence: ids are issued densely from 1 with generation 0,
+	// removed ids are re-issued last-in-first-out with the generation incremented.
+	pKnown bool // false once an operation recycled ids in an order the model does not track
+	pLen   int  // number of pool slots in use (incl. slot 0)
+	pGen   [2 * hMaxH]uint32
+	pFree  [2 * hMaxH]int
+	pNFree int
+}
+
+// pExpect returns the handle a creation must return now (ok=false: not predicted).
+func (x *hW) pExpect() (Entity, bool) {
+	if !x.pKnown {
+		return Entity{}, false
+	}
+	if x.pNFree > 0 {
+		x.pNFree--
+		id := x.pFree[x.pNFree]
+		return Entity{eid(id), x.pGen[id]}, true
+	}
+	id := x.pLen
+	if id >= 2*hMaxH {
+		x.pKnown = false
+		return Entity{}, false
+	}
+	x.pLen++
+	x.pGen[id] = 0
+	return Entity{eid(id), 0}, true
+}
+
+func (x *hW) pRecycle(e Entity) {
+	if !x.pKnown {
+		return
+	}
+	id := int(e.id)
+	if id >= 2*hMaxH {
+		x.pKnown = false
+		return
+	}
+	x.pGen[id] = e.gen + 1
+	x.pFree[x.pNFree] = id
+	x.pNFree++
+}
+
+func (x *hW) pReset() {
+	x.pKnown, x.pLen, x.pNFree = true, 1, 0
 }
 
 func hIsRel(k int) bool { return k == uR1 || k == uR2 }
@@ -109,6 +155,7 @@ func hRegister(w *World, k int) ID {
 // hNew creates a world with the universe registered at the profile's IDs.
 func hNew(profile, nu, capInc, relCapInc int) *hW {
 	x := &hW{nu: nu}
+	x.pReset()
 	x.w = NewWorld(NewConfig().WithCapacityIncrement(capInc).WithRelationCapacityIncrement(relCapInc))
 	for k := 0; k < nu; k++ {
 		hFill(&x.w, int(hProfiles[profile][k]))
@@ -210,6 +257,9 @@ func (x *hW) mCreated(e Entity, set uint8, tgt Entity) int {
 		vAssert(x.h[j] != e, "new handle differs from every handle issued before")
 	}
 	vAssert(!e.IsZero(), "new handle is not the zero entity")
+	if want, ok := x.pExpect(); ok {
+		vAssert(e == want, "creation issues the handle a fresh world with the same history would issue (dense ids, last-removed id first, generation + 1)")
+	}
 	x.h[i] = e
 	x.alive[i] = true
 	x.set[i] = set
